@@ -38,13 +38,18 @@ Wait(e) ==
            /\ ~e.ok => e.err                                           \* terminated with an error
            /\ \A b \in DOMAIN C : {r \in {"restore", "async", "regular", "initdef", "event"} : Was(b, r)}
                                     = I!CalledSet(R, b)                \* the documented sources, each once
-    /\ e.t <= I!MaxWait(C)                                             \* never longer than the largest timeout
+    /\ (e.ok => e.t <= I!MaxWait(C))        \* never longer than the largest timeout (a failed start
+                                            \* additionally waits for the clean-up to finish)
     /\ UNCHANGED <<called, outv>>
+(* wait_init() called while the stopped / failed simulation is still cleaning up: the     *)
+(* simulation is not running, so it must raise                                           *)
+Wait2(e) == done /\ ~e.ok /\ UNCHANGED vars
 Step == /\ l <= Len(Ev(tid))
         /\ LET e == Ev(tid)[l] IN
              \/ e.ev = "call" /\ Call(e)
              \/ e.ev = "out" /\ Out(e)
              \/ e.ev = "wait" /\ Wait(e)
+             \/ e.ev = "wait2" /\ Wait2(e)
         /\ l' = l + 1 /\ UNCHANGED tid
 TraceSpec == TraceInit /\ [][Step]_<<vars, tid, l>>
 ASSUME InitRegs
